@@ -187,7 +187,10 @@ func genCase(r *vlib.Rand, layout string, big bool, quick bool) (params, []byte,
 
 	maxLeaves := 1200
 	if !quick {
-		maxLeaves = 3000
+		maxLeaves = 2000
+	}
+	if raceEnabled && maxLeaves > 1000 {
+		maxLeaves = 1000 // the race detector makes hashing/encoding ~10x slower
 	}
 	var n int
 	if big {
@@ -195,7 +198,10 @@ func genCase(r *vlib.Rand, layout string, big bool, quick bool) (params, []byte,
 		p.spec = vlib.Pick(r, []string{"size-65536", "size-32768", "rabin", "buzhash", "default", "rabin-16384-32768-65536", "size-262144"})
 		lim := 1 << 20
 		if !quick {
-			lim = 4 << 20
+			lim = 3 << 20
+		}
+		if raceEnabled {
+			lim = 3 << 19
 		}
 		n = r.Range(0, lim)
 		if r.Chance(1, 3) {
@@ -407,10 +413,21 @@ func mismatch(got, want []byte) string {
 }
 
 func run(c *vlib.Ctx) {
-	c.Rule("case = one import: layout {balanced,trickle} x width {2..8,16,174,1024} x chunker {size-1..4096, rabin-min-avg-max small; big strata: size-32K..256K, default, rabin, buzhash} x raw/dag-pb leaves x CID builder {nil,v0,v1 sha2-256,v1 blake2b-256,v1 sha2-512} x mode (12 values incl. setuid/setgid/sticky) x mtime {zero,epoch,negative,nanos,negative+nanos,random}; chunk counts at the layout's shape boundaries (w^d±1, 2w^d±1; trickle layer capacities ±1) or random up to 1200 (thorough 3000) leaves, partial last chunk; inputs random/constant/periodic (shared sub-DAGs). Every stored node is re-fetched and decoded. distinct = FNV of config+input descriptor+resulting root CID/shape; non-trivial = DAG height >= 3 (stratum balanced-raw-single: root is a raw node).")
-	c.Cases("balanced", c.N(180, 1500), oneImport("balanced"))
-	c.Cases("trickle", c.N(180, 1500), oneImport("trickle"))
-	c.Cases("balanced-big", c.N(12, 100), oneImport("balanced-big"))
-	c.Cases("trickle-big", c.N(12, 100), oneImport("trickle-big"))
-	c.Cases("balanced-raw-single", c.N(24, 200), oneImport("balanced-raw-single"))
+	c.Rule("case = one import: layout {balanced,trickle} x width {2..8,16,174,1024} x chunker {size-1..4096, rabin-min-avg-max small; big strata: size-32K..256K, default, rabin, buzhash} x raw/dag-pb leaves x CID builder {nil,v0,v1 sha2-256,v1 blake2b-256,v1 sha2-512} x mode (12 values incl. setuid/setgid/sticky) x mtime {zero,epoch,negative,nanos,negative+nanos,random}; chunk counts at the layout's shape boundaries (w^d±1, 2w^d±1; trickle layer capacities ±1) or random up to 1200 (thorough 2000; 1000 under -race) leaves, partial last chunk; inputs random/constant/periodic (shared sub-DAGs). Every stored node is re-fetched and decoded. distinct = FNV of config+input descriptor+resulting root CID/shape; non-trivial = DAG height >= 3 (stratum balanced-raw-single: root is a raw node).")
+	// thorough counts are for a build without -race; under -race (hashing and
+	// protobuf encoding ~20x slower) the tier runs 1/6 of them, never fewer than quick.
+	n := func(q, t int) int {
+		if raceEnabled {
+			t /= 6
+			if t < q {
+				t = q
+			}
+		}
+		return c.N(q, t)
+	}
+	c.Cases("balanced", n(180, 1500), oneImport("balanced"))
+	c.Cases("trickle", n(180, 1500), oneImport("trickle"))
+	c.Cases("balanced-big", n(12, 100), oneImport("balanced-big"))
+	c.Cases("trickle-big", n(12, 100), oneImport("trickle-big"))
+	c.Cases("balanced-raw-single", n(24, 200), oneImport("balanced-raw-single"))
 }
